@@ -84,7 +84,8 @@ MatchRecv(t, s, r, res) ==
                                 /\ (t.rc \in {"RequestRecv", "Success"} \/ (s.cfg.dtls /\ t.rc = "RequestSend"))
                                 /\ (s.cfg.dtls => ((t.rs = 1) = ReadSecure(s)))
                                 \* ... and nothing changed: the handshake state and the read protection are what they were
-                                /\ t.hs = s.hs /\ (t.rs = 1) = ReadSecure(s)
+                                \* (TLS <= 1.2 names the message it has seen the header of while it waits for its rest)
+                                /\ (t.hs = s.hs \/ (t.imsg # "-" /\ t.hs = t.imsg)) /\ (t.rs = 1) = ReadSecure(s)
     /\ Len(t.dlv) = res.ndlv
     /\ r.gen => \A i \in 1..Len(t.dlv) : t.dlv[i].ok = 1  \* what is delivered is what the peer application sent
     /\ ObsDead(t, s) = (n.dead # "no")
